@@ -103,17 +103,13 @@ def Op.completesIn (st : St) : Op → Bool
   | .put m => decide (m.len ≤ dataPageSize)
   | .crashPut m k => decide (m.len ≤ dataPageSize) && decide (m.len + 4 ≤ k)
   | .putFail m => decide (m.len ≤ dataPageSize) && decide (st.q.messageOffset + m.len ≤ dataPageSize)
+  | .putFailIdx m => decide (m.len ≤ dataPageSize) && decide (nextSeq st.q / indexItemsPerPage = st.q.indexPageIndex)
   | _ => false
 
 /-- number of completed appends along a history -/
 def appendCount (st : St) : List Op → Nat
   | [] => 0
   | op :: ops => (if op.completesIn st then 1 else 0) + appendCount (step st op) ops
-
-theorem gc_q (st : St) : (gc st).q = st.q := by
-  unfold gc; split
-  · rfl
-  · dsimp only; split <;> rfl
 
 theorem put_appended {st : St} (I : Inv st) (m : Msg) :
     (put st m).1.q.appended = st.q.appended + (if m.len ≤ dataPageSize then 1 else 0) := by
@@ -143,6 +139,22 @@ theorem step_appended {st : St} (I : Inv st) (op : Op) (hnr : op.noReset) :
       rw [put_appended I]
       simp only [Op.completesIn]
       simp [show m.len ≤ dataPageSize by omega, show st.q.messageOffset + m.len ≤ dataPageSize by omega]
+  | putFailIdx m =>
+    show (putFI st m).1.q.appended = _
+    unfold putFI
+    split
+    · rename_i h; simp [Op.completesIn, show ¬ m.len ≤ dataPageSize by omega]
+    · rename_i h
+      dsimp only
+      split
+      · rename_i h2
+        simp only [alloc_nextSeq, alloc_indexPageIndex] at h2
+        simp [Op.completesIn, h2]
+      · rename_i h2
+        simp only [alloc_nextSeq, alloc_indexPageIndex] at h2
+        rw [put_appended I]
+        have h3 : nextSeq st.q / indexItemsPerPage = st.q.indexPageIndex := by omega
+        simp [Op.completesIn, show m.len ≤ dataPageSize by omega, h3]
   | get s => simp [step, Op.completesIn]
   | ack s =>
     obtain ⟨_, _, _, h, _⟩ := ack_inv I.core s
